@@ -1441,6 +1441,9 @@ class Router(NetworkNode, discriminator="router"):
         :param frame: The frame to be routed or forwarded.
         :param from_network_interface: The network interface from which the frame originated.
         """
+        # ARP is link-local: a request or reply that is not for this router is never routed
+        if frame.udp and frame.is_arp:
+            return
         # check if frame is addressed to this Router but has failed to be received by a service of application at the
         # receive_frame stage
         if frame.ip:
